@@ -1,7 +1,9 @@
 """C20 -- the introspector reports what was configured."""
+import json
 import os
 from harness.common import facts as F
 from harness.c20 import extract as X
+from harness.c20 import translate as T
 
 ID = 'C20'
 DEPENDS = ['C04']     # Proofs/C20_commit.v imports Model/C04.v
@@ -18,17 +20,34 @@ RULE = ('three streams: (a) random operation sequences (add/get/get_category/rel
 ASSUMPTIONS = ['hash((category, discriminator)) is injective on the discriminators used (dict-key equality of introspectables = same '
                'category and discriminator, then identity or dict ==); the second dict key discriminator_hash is not modelled',
                'introspectable content is immutable after registration; content equality is modelled by a fingerprint']
-TRUSTED = ['hand-written model coq/Model/C20.v of Introspector/Introspectable.register (shape-pinned)',
+TRUSTED = ['translator harness/c20/translate.py: control flow of Introspector.add/get/get_category/categories/remove/'
+           '_get_intrs_by_pairs/relate/unrelate/related, Introspectable.relate/unrelate/register, the registration step of '
+           'execute_actions and the introspection filter of action() is translated mechanically; its PRIMITIVE TABLE (about 40 '
+           'lines: dict setdefault/get/pop/del/[..], list append/remove/in, sorted(set(..), key=order), `is`, aliases as paths, '
+           'KeyError/ValueError) is the trusted claim about Python semantics, validated by the op-sequence correspondence',
+           'hand-written reference model coq/Model/C20.v (the theorems are about it; proved equal to the regenerated program)',
+           'shape pins only for what is not translated: Introspector.__init__/categorized, Introspectable.__init__/__hash__/'
+           'discriminator_hash/..., undefer, action_info, action_method, with_package, and execute_actions / action() with the '
+           'translated fragment cut out (pins_masked.json)',
            'introspectable-table extractor harness/c20/extract.py (validated by the directive-scenario stream)',
            'docs/narr/introspector.rst parsed for documented categories/keys']
-TECHNIQUE = ('Coq proof over a hand-written Introspector state machine + reflective vm_compute theorems over directive tables '
-             'regenerated from source and documentation; extracted-model differential correspondence; sentinel-argument scenarios')
-LEVEL_TEXT = ('Theorems: every key of every regenerated directive table that names a directive argument records that argument '
-              '(keys_faithful) and every documented category/key is recorded by a directive of that category; for the Introspector '
-              'state machine, for every operation sequence: relations stay symmetric, get returns the latest registration, remove '
-              'erases entry and relations, disabled introspection records nothing, only executed actions are recorded.')
-LEVEL_NOTE = ('Trusted: Coq kernel; table extractor (ast) and its normal forms; hand model of registry.Introspector (pinned, '
-              'validated by op-sequence correspondence); which actions execute is taken from the C04 commit model / the real run.')
+TECHNIQUE = ('Coq proof over an Introspector state machine; the executable program is REGENERATED from registry.py / actions.py on '
+             'every run by a fail-closed ast->Gallina translator (state-passing, exceptions with partial states) and proved equal '
+             'to the hand-written reference model (generated = model theorems, one induction per loop); reflective vm_compute '
+             'theorems over directive tables regenerated from source and documentation; extracted-model differential '
+             'correspondence (the regenerated program is what runs against the real Introspector); sentinel-argument scenarios')
+LEVEL_TEXT = ('Theorems: the program regenerated from the current source equals the reference model for every method and on every '
+              'operation sequence (C20_generated_*_is_model, C20_generated_run_is_model); every key of every regenerated directive '
+              'table that names a directive argument records that argument (keys_faithful) and every documented category/key is '
+              'recorded by a directive of that category; for the Introspector state machine, for every operation sequence: '
+              'relations are symmetric and exact, get returns the latest registration, remove erases the entry, disabled '
+              'introspection records nothing, only executed actions are recorded -- the last four also restated about the '
+              'regenerated program (..._generated).')
+LEVEL_NOTE = ('Trusted: Coq kernel; the translator and its primitive table (leaves), the table extractor (ast) and its normal forms; '
+              'C20_generated_remove_is_model needs KeysOwn (entries stored under their own key), which holds in every reachable '
+              'state (C20_reachable_invariants); the second dict key discriminator_hash and the action_info attribute are erased '
+              'by the table; which actions execute is taken from the C04 commit model / the real run (C04 keeps whole-function '
+              'pins of action() and execute_actions).')
 
 # directive/key pairs documented as carrying something else than the same-named argument
 # (request extensions are undocumented; a property/reify callable is recorded as the descriptor built from it)
@@ -55,7 +74,23 @@ def facts(src):
     except OSError as e:
         problems.append('cannot read docs/narr/introspector.rst: %s' % e)
         doc = {}
-    lines = [F.HEADER, 'Require Import Verif.Lib.C20Types.\n']
+    # the introspector program, regenerated from the source text (harness/c20/translate.py)
+    gen, tpr, tsum, masked = T.translate_tree(src)
+    problems += tpr
+    summary.update(tsum)
+    try:
+        with open(os.path.join(HERE, 'pins_masked.json')) as f:
+            want_masked = json.load(f)
+    except (OSError, ValueError):
+        want_masked = {}
+        problems.append('cannot read harness/c20/pins_masked.json')
+    for q, w in sorted(want_masked.items()):
+        got = masked.get(q)
+        summary['masked:' + q] = got
+        if got != w:
+            problems.append('shape pin %s (translated fragment cut out) changed (%s -> %s): the hand-written model / the C04 '
+                            'commit model follows the previous text of this function' % (q, w, got))
+    lines = [F.HEADER, 'Require Import Verif.Lib.C20Types Verif.Model.C20_base.\n']
     lines.append('Definition sites : list site := [\n')
     ents = []
     for s in sites:
@@ -70,6 +105,8 @@ def facts(src):
         '(%s, %s)' % (F.coq_text(a), F.coq_text(b)) for a, b in exc))
     lines.append('Definition documented : list (text * list text) := [\n' + ';\n'.join(
         '  (%s, %s)' % (F.coq_text(c), F.coq_texts(ks)) for c, ks in doc.items()) + '].\n')
+    lines.append('\n(* ---- regenerated from src/pyramid/registry.py and src/pyramid/config/actions.py by harness/c20/translate.py *)\n')
+    lines.append(gen)
     summary['sites'] = len(sites)
     summary['keys'] = sum(len(s['keys']) for s in sites)
     summary['documented_categories'] = len(doc)
@@ -715,7 +752,12 @@ def _table():
 
 def from_wire(case, raw):
     if case['kind'] == 'ops':
-        return {'model': raw, 'spec': None}
+        # raw = [answers of the program regenerated from the source, answers of the reference model]
+        if isinstance(raw, list) and len(raw) == 2 and isinstance(raw[0], list) and isinstance(raw[1], list):
+            if raw[0] != raw[1]:      # cannot happen while C20_generated_run_is_model holds: show both, so the case is kept
+                return {'model': ['regenerated', raw[0], 'reference-model', raw[1]], 'spec': ['reference-model', raw[1]]}
+            return {'model': raw[0], 'spec': ['reference-model', raw[1]]}
+        return {'model': ['MODEL', raw], 'spec': None}
     if case['kind'] == 'tables':
         return {'model': ['documented-but-not-recorded', sorted(raw[2])], 'spec': ['documented-but-not-recorded', []]}
     if case['kind'] == 'viewrels':
@@ -758,7 +800,10 @@ def spec_holds(case, obs, spec):
     """directive stream: every recorded key that the regenerated table attributes to an argument really carries
     that argument, and every key named like a directive argument carries that argument (the property)."""
     if case['kind'] == 'ops':
-        return _ops_spec(case, obs)
+        a, b = _ops_spec(case, obs), _ops_map_spec(case, obs)
+        if a is False or b is False:
+            return False
+        return True if (a or b) else None
     if case['kind'] in ('tables', 'program', 'viewrels'):
         return obs == spec
     if obs and obs[0] == 'HARNESS-EXC':
@@ -833,6 +878,49 @@ def _ops_spec(case, obs):
             if got != want:
                 return False
     return True
+
+
+def _ops_map_spec(case, obs):
+    """Property clauses "the introspector reports what was registered" on arbitrary op sequences (Coq: get_after_add,
+    recorded_entry_is_latest, remove_erases, reachable_invariants): the entries form a map from (category,
+    discriminator) to the object registered LAST under that key and not removed since; get reads it, get_category
+    lists exactly the current entries of the category, in ascending order of registration; add never raises; a remove
+    that returns normally erases the entry (after a remove that raised part-way the key is not judged any more)."""
+    ops = case['ops']
+    if not isinstance(obs, list) or len(obs) != len(ops):
+        return False
+    cur, judged = {}, False
+    for o, r in zip(ops, obs):
+        k = o[0]
+        if k in ('add', 'register'):
+            cur[(o[1][0], o[1][1])] = o[1][3]
+            if k == 'add' and r != []:
+                return False
+        elif k == 'remove':
+            if r == []:
+                cur.pop((o[1], o[2]), None)
+            else:
+                cur[(o[1], o[2])] = '?'
+        elif k == 'get':
+            want = cur.get((o[1], o[2]))
+            if want == '?':
+                continue
+            judged = True
+            if r != ([] if want is None else [want]):
+                return False
+        elif k == 'category':
+            if r == [] or r in (['K'], ['V']):
+                continue
+            want = [v for (c, d), v in cur.items() if c == o[1]]
+            if '?' in want or not (isinstance(r, list) and len(r) == 1 and isinstance(r[0], list)):
+                continue
+            judged = True
+            rows = r[0]
+            if sorted(x[0] for x in rows) != sorted(want):
+                return False
+            if any(rows[i][1] >= rows[i + 1][1] for i in range(len(rows) - 1)):
+                return False
+    return True if judged else None
 
 
 def classify(case, obs, spec):
